@@ -180,6 +180,14 @@ def cli_run(argv, dbpath):
         crashed = "SystemExit"
     except Exception as e:
         crashed = type(e).__name__
+        try:        # name MonkeyType's own error kinds by their documented base class (subclasses may come and go)
+            from monkeytype import exceptions as mte
+            for base in ("NameLookupError", "InvalidTypeError", "MonkeyTypeError"):
+                if isinstance(e, getattr(mte, base, ())):
+                    crashed = base
+                    break
+        except Exception:
+            pass
     return rc, crashed, out.getvalue(), err.getvalue()
 
 
